@@ -24,7 +24,7 @@ package clusters
 //@ const curPolicies = (typeis(c.currentDispatchPolicies.v, "[]proxyv1alpha1.DispatchPolicy") ? unbox(c.currentDispatchPolicies.v, "[]proxyv1alpha1.DispatchPolicy") : emptyseq("proxyv1alpha1.DispatchPolicy"))
 //@ const picked = unbox(result, "*endpointPickStrategy")
 
-//@ func (*ClusterInfo).MatchAttributes props C01
+//@ func (*ClusterInfo).MatchAttributes props C01, C03
 //@   modifies *
 //@   ensures [no_match_err] result1 != nil <==> (forall i int :: {old(curPolicies)[i]} 0 <= i && i < len(old(curPolicies)) ==> !policyMatch(old(curPolicies)[i], requestAttributes))
 //@   ensures [no_match_val] result1 != nil ==> result1 == ErrNoRouterRuleMatches && result == nil
@@ -34,3 +34,21 @@ package clusters
 //@   trusted "sync.Map.Range with a closure is not modelled"
 //@   pure
 //@   ensures [keys] forall n string :: {has(result, n)} has(result, n) <==> smhas(&m.data, box(n))
+
+//@ const EPS = &s.cluster.Endpoints.data
+//@ const LB = &s.cluster.loadbalancer
+//@ const cursorCell = unbox(smget(LB, box(key)), "*uint64")
+
+//@ func (*endpointPickStrategy).Pop props C03, C14
+//@   modifies smap(&s.cluster.loadbalancer), cells("uint64")
+//@   ensures [member] result1 == nil ==> result != nil && exists n int :: {s.upstreams[n]} 0 <= n && n < len(s.upstreams) && smhas(EPS, box(s.upstreams[n])) && result == unbox(smget(EPS, box(s.upstreams[n])), "*EndpointInfo") && !result.status.Disabled && result.status.Healthy
+//@   ensures [none] result1 != nil <==> !exists n int :: {s.upstreams[n]} 0 <= n && n < len(s.upstreams) && smhas(EPS, box(s.upstreams[n])) && !unbox(smget(EPS, box(s.upstreams[n])), "*EndpointInfo").status.Disabled && unbox(smget(EPS, box(s.upstreams[n])), "*EndpointInfo").status.Healthy
+//@   ensures [none_nil] result1 != nil ==> result == nil
+//@   ensures [single] result1 == nil && len(readyEndpoints) == 1 ==> result == readyEndpoints[0]
+//@   ensures [rr_index] result1 == nil && len(readyEndpoints) >= 2 ==> smhas(LB, box(key)) && result == readyEndpoints[*cursorCell % len(readyEndpoints)]
+//@   ensures [rr_incr] result1 == nil && len(readyEndpoints) >= 2 && old(smhas(LB, box(key))) ==> cursorCell == old(cursorCell) && *cursorCell == uint64(old(*cursorCell) + 1)
+//@   ensures [rr_first] result1 == nil && len(readyEndpoints) >= 2 && !old(smhas(LB, box(key))) ==> *cursorCell == 1 && fresh(cursorCell)
+//@   ensures [rr_frame] forall k string :: {smhas(LB, box(k))} k != key && old(smhas(LB, box(k))) ==> smhas(LB, box(k)) && smget(LB, box(k)) == old(smget(LB, box(k)))
+//@   loop 0: invariant [bounds] 0 <= idx && idx <= len(s.upstreams)
+//@   loop 0: invariant [sound] forall x *EndpointInfo :: {has(readyEndpoints, x)} has(readyEndpoints, x) ==> x != nil && !x.status.Disabled && x.status.Healthy && exists n int :: {s.upstreams[n]} 0 <= n && n < idx && smhas(EPS, box(s.upstreams[n])) && x == unbox(smget(EPS, box(s.upstreams[n])), "*EndpointInfo")
+//@   loop 0: invariant [complete] forall n int :: {s.upstreams[n]} 0 <= n && n < idx && smhas(EPS, box(s.upstreams[n])) && !unbox(smget(EPS, box(s.upstreams[n])), "*EndpointInfo").status.Disabled && unbox(smget(EPS, box(s.upstreams[n])), "*EndpointInfo").status.Healthy ==> has(readyEndpoints, unbox(smget(EPS, box(s.upstreams[n])), "*EndpointInfo"))
